@@ -649,7 +649,7 @@ class TimeStamps(RangeUnit):
 
 
 # ---------------------------------------------------------------- tags
-CLASS_REPS = " !-/059AZ_az~"  # one or two representatives per character class
+CLASS_REPS = " !-/0259AOSZ_az~"  # one or two representatives per character class + the characters of the special-cased tag OS/2
 PRINTABLE = "".join(chr(c) for c in range(32, 127))
 
 
@@ -662,7 +662,7 @@ def valid_tag(t):
 
 class Tags(Unit):
     name = "tags"
-    rule = "table tags: quick = all 4-tuples over 13 class representatives ' !-/059AZ_az~' (28561); thorough = all 95^4 printable-ASCII 4-tuples; every tag, leading and interior spaces and the all-space tag included: identifierToTag(tagToIdentifier(t))==t, xmlToTag(tagToXML(t))==t, identifiers are [A-Za-z0-9_]+ not starting with a digit, both manglings injective (checked by inverse), identifier unique on caseless file systems; distinct = each tag"
+    rule = "table tags: quick = all 4-tuples over 16 class representatives ' !-/0259AOSZ_az~' (65536); thorough = all 95^4 printable-ASCII 4-tuples; every tag, leading and interior spaces and the all-space tag included: identifierToTag(tagToIdentifier(t))==t, xmlToTag(tagToXML(t))==t, identifiers are [A-Za-z0-9_]+ not starting with a digit, both manglings injective (checked by inverse), identifier unique on caseless file systems; distinct = each tag"
     chunk = 1
     required_witnesses = ("plain xml name", "mangled xml name", "hex escape", "trailing space")
 
